@@ -2,7 +2,7 @@
 from vlib import env, core, gen, asserts, printer, gread  # noqa: F401
 
 ID = "C04"
-BUDGET = {"quick": 2500, "thorough": 25000}
+BUDGET = {"quick": 2000, "thorough": 25000}
 PROFILE = gen.profile(retract="matched", home_mid=False, cvisit=3, cyc_w=8)
 RULE = ("Programs in absolute extrusion mode with matched equal-length retract/recover cycles (per program either E-only or "
         "G10/G11; one cycle length from {0.508,1.27,2.54} mm so that mm and inch renderings are exact), extruding moves only "
